@@ -5,7 +5,7 @@
 cd /verif; . ./env.sh
 work=/tmp/sweep.$$; mkdir -p $work
 ids=""
-for d in seeded/C*/; do
+for d in seeded/${ONLY:-C*}/; do
   id=$(basename $d)
   mkdir -p $work/$id
   git -C /repo ls-files -z | (cd /repo && xargs -0 cp --parents -t $work/$id)
